@@ -23,7 +23,11 @@
 (*         expect : [has, store]]   (G: the generating model's post-store of  *)
 (*         the acting thread; ModelAgree cross-checks generator, concretiser  *)
 (*         and this module - a failure is a machinery error, not a verdict)   *)
-(* Stores are sequences of <<name, value-text>>; thread 0 is the process'     *)
+(*         heap : Seq(<<cell, text>>) deep snapshot of the run's mutable      *)
+(*         option objects after the step, reps : results of the repetitions   *)
+(* In `m` a value is a cell id (Options.tla: value = cell, heap = contents);  *)
+(* observed stores are *deep* snapshots: sequences of <<name, content text>>; *)
+(* thread 0 is the process'                                                   *)
 (* main thread (alive from the start, never acts).                            *)
 EXTENDS Integers, Sequences, FiniteSets, TLC, Json, IOUtils
 
@@ -36,19 +40,23 @@ MFun(m)  == [n \in {x.n : x \in Range(m)} |-> (CHOOSE x \in Range(m) : x.n = n).
 
 (* constants computed once from the batch (bound in OptionsTrace.cfg; an INSTANCE substitution by an expression  *)
 (* would be re-evaluated - and the JSON re-read - at every use)                                                   *)
-DefaultDef == PFun(Batch.defaults)        \* documented module defaults
-ValsDef    == Range(Batch.vals)           \* texts of documented-valid values; invalid ones are logged as "!bad:<text>"
+DefaultDef == PFun(Batch.defaults)        \* documented module defaults (option -> cell)
+ValsDef    == Range(Batch.vals)           \* texts of documented-valid contents; invalid ones are logged as "!bad:<text>"
+HeapDef    == PFun(Batch.cells)           \* immutable values: each is its own cell (id = content text); the mutable
+                                          \* objects of a run are cells "@<trace>.<thread>.<n>" -> initial text, listed
+                                          \* per trace (Traces[i].cells)
 TIdsDef    == 0..Batch.maxt
 NestDef    == [t \in TIdsDef |-> 1000000]
-CONSTANTS DefaultF, ValidVals, TIds, NoNest
+CONSTANTS DefaultF, ValidVals, TIds, NoNest, HeapF
 OptNames == DOMAIN DefaultF
 
-VARIABLES alive, store, blocks, last,     \* the model (Options.tla)
+VARIABLES alive, store, blocks, heap, last,     \* the model (Options.tla)
           tid, l, regc, bad, seen
-ovars == <<alive, store, blocks, last>>
+ovars == <<alive, store, blocks, heap, last>>
 vars  == <<ovars, tid, l, regc, bad, seen>>
 
 O == INSTANCE Options WITH Threads <- TIds, Main <- 0, Opts <- OptNames, Vals <- ValidVals, Default <- DefaultF,
+                           Cells <- DOMAIN HeapF, Mutable <- {}, Heap0 <- HeapF,
                            Bad <- "!bad", Unknown <- "!unknown", MaxNest <- NoNest
 
 Steps(i) == Traces[i].steps
@@ -59,7 +67,7 @@ Safe(f) == IF DOMAIN f = OptNames THEN f ELSE [o \in OptNames |-> "!shape"]
 Guard(e) ==
   CASE e.k = "spawn" -> e.t \in TIds /\ e.t \notin alive
     [] e.k = "die"   -> e.t \in alive \ {0} /\ blocks[e.t] = <<>>
-    [] e.k \in {"call", "edit", "set", "enter"} -> e.t \in alive
+    [] e.k \in {"call", "edit", "set", "enter"} -> e.t \in alive /\ \A x \in Range(e.m) : x.v \in DOMAIN heap
     [] e.k = "exit"  -> e.t \in alive /\ blocks[e.t] # <<>>
     [] OTHER -> FALSE
 
@@ -101,7 +109,7 @@ Clauses(e, rf) ==
                \cup (IF ok /\ e.hasRef THEN {Cl("CallIsolation.result", e.res = e.ref)} ELSE {})
           [] e.k = "edit"  ->
                {Cl("CallIsolation.store", O!CallStoreOn(last', obsF)),
-                Cl("RejectAtomic.raised", O!Rejected(MFun(e.m)) => ~ok)}
+                Cl("RejectAtomic.raised", O!Rejected(heap, MFun(e.m)) => ~ok)}
           [] e.k = "set"   ->
                {Cl("SetOptions.store", O!SetStoreOn(last', obsF)), Cl("SetOptions.returns", O!SetRetOn(last', PFun(e.ret))),
                 Cl("RejectAtomic.raised", O!RejectRaisedOn(last', ok)), Cl("RejectAtomic.store", O!RejectStoreOn(last', ok, obsF))}
@@ -113,7 +121,7 @@ Clauses(e, rf) ==
                                  Cl("Restore.transparent", O!BlockTransparentOn(last', obsF))}
                ELSE {}
           [] OTHER -> {}
-      iso  == (IF e.hasPre THEN {Cl("ThreadIsolation.pre", Safe(PFun(e.pre)) = store[e.t])} ELSE {})
+      iso  == (IF e.hasPre THEN {Cl("ThreadIsolation.pre", Safe(PFun(e.pre)) = O!Cont(heap, store[e.t]))} ELSE {})
               \cup (IF Len(e.all) > 0
                     THEN {Cl("ThreadIsolation.others",
                              O!ThreadIsolationOn(last', [u \in {x.t : x \in Range(e.all)} |->
@@ -127,11 +135,25 @@ Clauses(e, rf) ==
               THEN {Cl("Registry.balanced", rf.bal), Cl("Registry.ownerOnly", rf.own),
                     Cl("Registry.quiescent", \A r \in DOMAIN rf.c : rf.c[r] = 0)}
               ELSE {}
-      agr  == IF "expect" \in DOMAIN e /\ e.expect.has THEN {Cl("ModelAgree", PFun(e.expect.store) = store'[e.t])} ELSE {}
-  IN own \cup iso \cup ser \cup rg \cup agr
+      agr  == IF "expect" \in DOMAIN e /\ e.expect.has
+              THEN {Cl("ModelAgree", PFun(e.expect.store) = O!Cont(heap', store'[e.t]))} ELSE {}
+      \* deep snapshot of every mutable object of the run after the step: pfst wrote none of them
+      hp   == IF Len(e.heap) > 0
+              THEN {Cl("HeapUntouched", \A p \in Range(e.heap) :
+                                           p[1] \in DOMAIN heap /\ O!HeapUntouchedAt(last', p[1], p[2]))}
+              ELSE {}
+      \* the same call repeated with the very same option objects on fresh identical targets gives the same result
+      idem == IF Len(e.reps) > 1
+              THEN {Cl("CallIsolation.idempotent", \A i \in 1..Len(e.reps) : e.reps[i] = e.reps[1])} ELSE {}
+  IN own \cup iso \cup ser \cup rg \cup agr \cup hp \cup idem
 
-Init == /\ O!Init
-        /\ tid \in 1..Len(Traces)
+(* O!Init, except that the heap also holds the mutable objects of this trace's run *)
+Init == /\ tid \in 1..Len(Traces)
+        /\ alive = {0}
+        /\ store = [t \in TIds |-> DefaultF]
+        /\ blocks = [t \in TIds |-> <<>>]
+        /\ heap = PFun(Traces[tid].cells) @@ HeapF
+        /\ last = O!Last0(heap)
         /\ l = 1
         /\ regc = <<>>
         /\ bad = {}
